@@ -41,7 +41,7 @@ def State.isReady (s : State) (w : Nat) : Bool := s.ready.contains w
 dropping the caller's lifetime-erased job until the notify_all is done) -/
 def pcHoldsCv (s : State) (w : Nat) (b : Nat) : Pc → Bool
   | .rqNotifyAcq _ todo _ _ | .rqNotify _ todo _ _ | .rqNotifyRel _ todo _ _ => todo.contains w || b == w
-  | .sbPrune _ | .ret | .dead | .panicked => false
+  | .sbPrune _ | .ret | .dead | .panicked | .unwinding _ => false
   | .jobDropNotify j _ _ | .jobDrop j _ _ =>
       (match s.jobs[j]? with
        | some jb => (match jb.kind with | .erasedBg o _ => o == w | _ => false)
@@ -167,6 +167,7 @@ def stepAct (s : State) (a : Nat) : Option (State × Obs) :=
   match act.pc with
   | .dead => none
   | .panicked => none
+  | .unwinding _ => none
   | .ret => none                                  -- consumed by the harness `ret` event (see `retStep`)
   | .body _ _ => none                             -- consumed by harness events (`invoke`, `bodyEnd`)
   | .begin (.user op) k => some (s.goto a (.body op k), .beg op)
@@ -422,12 +423,12 @@ def stepAct (s : State) (a : Nat) : Option (State × Obs) :=
         let s1 := s.setQ q { v with state := r.1 }
         if r.2 = .park then some (s1.goto a (.rjParkCheck q j k), .csQ q)
         else if r.2 = .continue then some (s1.goto a (.jobStart j (.caller q) k), .csQ q)
-        else some (s1.goto a .panicked, .csQ q)
+        else some (s1.goto a (.unwinding k), .csQ q)
   | .rjParkCheck q j k =>
       match parkCheck (s.qState q) with
       | .continue => some (s.goto a (.jobStart j (.caller q) k), .csQ q)
       | .park => some (s.goto a (.rjPark q j k), .csQ q)
-      | .panic => some (s.goto a .panicked, .csQ q)
+      | .panic => some (s.goto a (.unwinding k), .csQ q)
   | .rjPark q j k => some (s.goto a (.rjParked q j k), .park)
   | .rjParked q j k =>
       if s.parkToken.contains t then
@@ -603,12 +604,9 @@ def stepAct (s : State) (a : Nat) : Option (State × Obs) :=
           | some v =>
             let r := pollDecide f v.state
             let s1 := s.setQ fu.q { v with state := r.1 }
-            let next : Pc := match r.2.1 with
-              | .wait => .pfBlocked f
-              | .drain => .dqCheck f fu.q
-              | .panic => .panicked
-            let s2 := if r.2.1 == .drain then s1.setHolder fu.q (some a) else s1
-            some (s2.goto a (.pfPollRel f next), .csQ fu.q)
+            if r.2.1 = .wait then some (s1.goto a (.pfPollRel f (.pfBlocked f)), .csQ fu.q)
+            else if r.2.1 = .drain then some ((s1.setHolder fu.q (some a)).goto a (.pfPollRel f (.dqCheck f fu.q)), .csQ fu.q)
+            else some (s1.goto a (.pfPollRel f .panicked), .csQ fu.q)
   | .pfPollRel f next =>
       match s.futs[f]? with
       | none => none
@@ -704,28 +702,31 @@ def State.leafOf (s : State) (t : Nat) : Option Nat :=
 
 /-! ### environment labels (what the harness does) -/
 
+/-- Append a new activity (a call made by thread `t`, from inside the closure body of `parent` if
+any) at program counter `pc`; returns the new state and the activity's id. -/
+def addAct (s : State) (t : Nat) (parent : Option Nat) (pc : Pc) : State × Nat :=
+  let a := s.acts.length
+  let newAct : Act := { thread := t, pc := pc, parent := parent, child := none, woken := false, result := none }
+  let s1 : State := { s with acts := s.acts ++ [newAct], nextOp := s.nextOp + 1 }
+  match parent with
+  | some p =>
+    match s1.acts[p]? with
+    | some pv => (s1.setAct p { pv with child := some a }, a)
+    | none => (s1, a)
+  | none => (s1, a)
+
 /-- Start call `c` on thread `t`.  `parent` is the activity whose closure body makes the call
 (none for a call made directly by a harness thread). -/
 def invoke (s : State) (t : Nat) (parent : Option Nat) (c : Call) : Option (State × Nat) :=
   let op := s.nextOp
-  let a := s.acts.length
-  let mk (pc : Pc) (s' : State) : State × Nat :=
-    let newAct : Act := { thread := t, pc := pc, parent := parent, child := none, woken := false, result := none }
-    let s1 := { s' with acts := s'.acts ++ [newAct], nextOp := op + 1 }
-    let s2 := match parent with
-      | some p => match s1.acts[p]? with
-        | some pv => s1.setAct p { pv with child := some a }
-        | none => s1
-      | none => s1
-    (s2, a)
   match c with
-  | .desync q => some (mk (.dsPush q (.plain op)) s)
-  | .sync q => some (mk (.syDecide q (.user op)) s)
-  | .trySync q => some (mk (.tsDecide q (.user op)) s)
+  | .desync q => some (addAct s t parent (.dsPush q (.plain op)))
+  | .sync q => some (addAct s t parent (.syDecide q (.user op)))
+  | .trySync q => some (addAct s t parent (.tsDecide q (.user op)))
   | .fdesync q gate =>
       let f := s.futs.length
       let s1 := { s with futs := s.futs ++ [({ q := q, res := .none, waker := none } : Fut)], opFut := (op, f) :: s.opFut }
-      some (mk (.dsPush q (.fut op gate f)) s1)
+      some (addAct s1 t parent (.dsPush q (.fut op gate f)))
   | .after q gate =>
       let f := s.futs.length
       let s1 := { s with futs := s.futs ++ [({ q := q, res := .none, waker := none } : Fut)], opFut := (op, f) :: s.opFut }
@@ -733,20 +734,20 @@ def invoke (s : State) (t : Nat) (parent : Option Nat) (c : Call) : Option (Stat
       let s2 := match s1.gates[gate]? with
         | some gt => if gt.isOpen then s1 else s1.setGate gate { gt with waiting := gt.waiting ++ [op] }
         | none => s1
-      some (mk (.dsPush q (.after op gate f)) s2)
+      some (addAct s2 t parent (.dsPush q (.after op gate f)))
   | .await o => match s.futOf o with
-      | some f => some (mk (.pfPoll f) s)
+      | some f => some (addAct s t parent (.pfPoll f))
       | none => none
   | .syncf o => match s.futOf o with
-      | some f => some (mk (.fsTake f) s)
+      | some f => some (addAct s t parent (.fsTake f))
       | none => none
-  | .dropf _ => some (mk .ret s)
+  | .dropf _ => some (addAct s t parent .ret)
   | .openGate g =>
       match s.gates[g]? with
-      | some gt => some (mk (.openSend g .ret) (s.setGate g { gt with isOpen := true }))
+      | some gt => some (addAct (s.setGate g { gt with isOpen := true }) t parent (.openSend g .ret))
       | none => none
-  | .setMax n => some (mk (.smSet n) s)
-  | .despawn => some (mk .dpRead s)
+  | .setMax n => some (addAct s t parent (.smSet n))
+  | .despawn => some (addAct s t parent .dpRead)
 
 /-- The harness closure of activity `a` returns (`end` event). -/
 def bodyEnd (s : State) (a : Nat) : Option (State × Obs) :=
